@@ -61,6 +61,11 @@ CLAIMED = {
          "Exhaustive for ExposureBias (text equals the specified text, Unmarshal(Marshal(v)) = v, idempotence, JSON) and for the MessagePack round trip + Msgsize upper bound of 16 integer-backed types over their whole 8/16-bit domains; every decoder (24 entry points incl. msgp and json paths) returns on ~6k (quick) / ~90k (thorough) enumerated strings and their embeddings; 6 UUID forms x 9 classes x 6 seeded values; k/100 fixed-point values for Aperture/FocalLength; structural codecs (PHash64/256 little-endian packing, Dimensions, FocusDistance, UUID) on symbolic distinct bytes and 20k seeded values.",
          "NOT decided by the specification: IEEE-754 text fidelity of arbitrary float32 values, NaN/Inf/denormal text forms (TLC has no floating point) - float-backed types are covered only at k/100 fixed-point values and by bit-exact MessagePack round trips of seeded bit patterns. PHash Encode/Decode get buffers of the required length.",
          "DESIGN.md section 4 C16"),
+
+ "C11": ("TLA+ spec Bmff (box-stack reader on CR3-shaped trees: layout arithmetic vs. the code's remain bookkeeping; Contain/RemainOK/AfterTop/Payload/AllHanded/Progress) model-checked by TLC over every tree within the bounds incl. 64-bit sizes and one size lie; each terminal state concretised and walked with isobmff.Reader + recording callbacks (generic consumers); hook traces (open/close/adv/read/cb/ret) of those runs, of the repository's ISOBMFF samples and of malformed/truncated files validated by the OPEN trace acceptor Trace_Bmff with Contain evaluated at every event",
+         "TLC decides the invariants for all trees of <= MaxKids metadata children x <= MaxTail top-level boxes x 64-bit form x lie x XMP consumption; for well-formed trees the real reader must stand at the next top-level box after every call and hand each callback exactly payload(T, box) with the directory type of the box; for EVERY recorded execution (~25k traces, 1M events per quick run) the position never passes the declared end of any open box and every successful top-level call ends at the end of its box.",
+         "Trusted: TLC, the tree writer (gen/bmfftree.go), the isobmff hooks (add-only one-line events). Boxes shorter than 16 bytes, HEIF item paths and resynchronisation after a lie are judged by the open acceptor only. TLC integers are 32 bit: sizes >= 2^29 are clamped by the harness.",
+         "DESIGN.md section 4 C11"),
 }
 NOT_APPLICABLE = {
  "C18": "Bit-for-bit equality of AVX and Go float32 DCT kernels and their error bound against the real DCT-II are IEEE-754 statements over 2^(32*64) inputs; TLA+/TLC has no floating point and the kernels have no state machine to specify (DESIGN.md section 5).",
